@@ -25,7 +25,9 @@ char const* const kHarness = "c07_streams";
 size_t const kMaxBytes = 768;
 char const* const kRule
     = "problem as for C01 with 2-6 events x an assignment of events to 2-8 "
-      "streams x generated start skews; N free-running threads, one Stepper "
+      "streams x generated start skews x generated late starts (a stream "
+      "constructs its Stepper only after a lower stream finished k events); "
+      "N free-running threads, one Stepper "
       "per stream, sharing one CoreParams with a step collector, "
       "ActionDiagnostic and StepDiagnostic; oracle: every event's step "
       "stream (sorted by track, step) is bit-identical to the serial "
@@ -155,6 +157,44 @@ Verdict run_case(Choices& c, CaseLog& log)
     }
     for (int i = 0; i < nstreams; ++i)
         skew[i] = int(c.int_in(0, 2000));
+    // Generated start order (lazy per-stream start-up as in celer-sim's
+    // Runner::get_transporter): stream i may be told to construct its Stepper
+    // only after a lower-numbered stream has finished `after_n` of its events.
+    // Dependencies point to lower stream numbers only, so they cannot cycle.
+    std::vector<int> dep(nstreams, -1), after_n(nstreams, 0);
+    std::vector<int> n_assigned(nstreams, 0);
+    for (size_t e = 0; e < nev; ++e)
+        ++n_assigned[assign[e]];
+    int n_gated = 0;
+    for (int i = 1; i < nstreams; ++i)
+    {
+        if (!c.boolean(0.4))
+            continue;
+        int d = int(c.int_in(0, i - 1));
+        if (n_assigned[d] == 0)
+            continue;
+        dep[i] = d;
+        after_n[i] = int(c.int_in(1, n_assigned[d]));
+        log.mix(d);
+        log.mix(after_n[i]);
+        if (n_assigned[i] > 0)
+            ++n_gated;
+    }
+    if (n_gated)
+        log.label("gated-late-start");
+    {
+        // an idle stream below a busy one (gap in stream usage)
+        bool gap = false, seen_busy = false;
+        for (int i = nstreams - 1; i >= 0; --i)
+        {
+            if (n_assigned[i] > 0)
+                seen_busy = true;
+            else if (seen_busy)
+                gap = true;
+        }
+        if (gap)
+            log.label("idle-stream-below-busy");
+    }
     log.mix(nstreams);
     log.d("streams", nstreams);
     if (log.want_desc)
@@ -195,6 +235,9 @@ Verdict run_case(Choices& c, CaseLog& log)
         return Verdict::rejected;
     }
     std::vector<std::string> errors(nstreams);
+    std::vector<std::atomic<int>> done(nstreams);
+    for (auto& d : done)
+        d.store(0);
     std::atomic<int> ready{0};
     std::vector<std::thread> threads;
     for (int sid = 0; sid < nstreams; ++sid)
@@ -209,6 +252,9 @@ Verdict run_case(Choices& c, CaseLog& log)
                 for (volatile int k = 0; k < skew[sid] * 50; ++k)
                 {
                 }
+                if (dep[sid] >= 0)
+                    while (done[dep[sid]].load() < after_n[sid])
+                        std::this_thread::yield();
                 StepperInput si;
                 si.params = w->core;
                 si.stream_id = StreamId{StreamId::size_type(sid)};
@@ -227,15 +273,19 @@ Verdict run_case(Choices& c, CaseLog& log)
                         if (++calls > 40000)
                         {
                             errors[sid] = "call budget exhausted";
+                            done[sid].store(1 << 20);
                             return;
                         }
                         res = step();
                     }
+                    ++done[sid];
                 }
             }
             catch (std::exception const& ex)
             {
                 errors[sid] = ex.what();
+                // never leave a dependent stream waiting
+                done[sid].store(1 << 20);
             }
         });
     }
